@@ -66,7 +66,7 @@ def _source_of(ident):
             return bytes.fromhex(ident[5:]).decode("utf-8", "replace")
         except ValueError:
             return None
-    if ident.startswith(("lit:", "gen:", "decl:", "tpl:")):
+    if ident.startswith(("lit:", "gen:", "decl:", "tpl:", "dfn:")):
         try:
             r = subprocess.run([_harness_exe(), "c04", "source", ident], capture_output=True, text=True, timeout=60)
         except Exception:
@@ -275,9 +275,19 @@ def _typed_int_template_arguments_only(src):
     return True
 
 
+PROTO_PARAMS_KEY = "decl-forms:emitted-prototype-carries-the-parameter-list-of-the-definition/"
+
+
 def finding_key(req, obs, detail):
     # key by the first differing line class / rejection message, not by the whole program
     import re
+    m = re.search(r"\[dfn: ([a-z-]+)\]", detail or "")
+    if m and req.startswith("C04.fix\t"):
+        # named on the SOURCE TEXT alone (harness/src/c04/declforms.rs classify): the emitted text is refused with `no matching
+        # function for call to F(n arguments)` where F's first declaration is a prototype with more default arguments than its
+        # definition and n lies between the two / with `'X' was not declared` on a prototype line where X is declared between
+        # a prototype and the definition whose default expressions name it
+        return PROTO_PARAMS_KEY + m.group(1)
     if req.startswith("C04.fix\ttpl:") and "[tpl: int32-template-argument-printed-bare]" in (detail or ""):
         # named by the generator's own record of argument kinds (harness/src/c04/tmpl.rs classify): the first differing
         # line lies in an instance every call of which was written with an Int32 argument
